@@ -105,6 +105,14 @@ def sx_op(op):
     if k == "idx":
         payload = sx_cmap(op[4]) if op[3] == "upd" else sx_sel(op[4])
         return f"(idx {op[1]} {op[2]} {op[3]} {payload})"
+    if k == "sreq":
+        ents = []
+        for e in op[2]:
+            a = "(" + " ".join(e[0]) + ")"
+            ents.append(f"({a} upd {sx_cmap(e[2])})" if e[1] == "upd" else f"({a} regen {sx_sel(e[2])})" if e[1] == "regen" else f"({a} empty)")
+        return f"(sreq {op[1]} ({' '.join(ents)}) {gfi.show_val(op[3])} {'T' if op[4] else 'F'})"
+    if k == "reclose":
+        return f"(reclose {sx_prog(op[1])})"
     if k == "propose":
         return f"(propose {op[1]} {gfi.show_val(op[2])})"
     if k == "empty":
@@ -211,7 +219,7 @@ def make_case(g: G, depth, opts):
     kinds, ws = [], []
     static_addrs = _top_static_addrs(prog)
     for k, w in (("assessSelf", 1.0), ("upd", 1.0), ("regen", 1.0), ("proj", 1.0), ("gen", 0.3), ("assess", 0.5),
-                 ("propose", 0.0), ("empty", 0.0), ("subtrace", 0.0), ("idx", 0.0)):
+                 ("propose", 0.0), ("empty", 0.0), ("subtrace", 0.0), ("idx", 0.0), ("sreq", 0.0), ("reclose", 0.0)):
         w = opts.get(k, w)
         if k == "upd" and nested_switch:
             w = 0
@@ -224,6 +232,10 @@ def make_case(g: G, depth, opts):
         if k == "subtrace" and not static_addrs:
             w = 0
         if k == "idx" and not _index_editable(prog, atys):
+            w = 0
+        if k == "sreq" and (prog[0] != "static" or has_node(prog, SWITCHY)):
+            w = 0
+        if k == "reclose" and (prog[0] != "closure" or has_node(prog, SWITCHY)):
             w = 0
         if w > 0:
             kinds.append(k)
@@ -262,6 +274,50 @@ def make_case(g: G, depth, opts):
                 ops.append(["idx", s, kk, "upd", g.constraint(sub_univ, coverage=r.choice([0.0, 0.5, 1.0]))])
             if r.random() < 0.7:
                 ops.append(["assessSelf"])      # the edited trace's score is still the density of its choices
+        elif k == "sreq":
+            # a StaticRequest: per top-level address an Update, a Regenerate, an explicit EmptyRequest or
+            # nothing (= EmptyRequest); the dict is built in a shuffled order
+            entries = []
+            body = prog[1]
+            while body[0] == "bind":
+                addr, sub = body[1], body[2]
+                sub_univ = [q[len(addr):] for q in universe if list(q[:len(addr)]) == list(addr)]
+                u = r.random()
+                if u < 0.4:
+                    entries.append([addr, "upd", g.constraint(sub_univ, coverage=r.choice([0.0, 0.5, 1.0]), masked=masked)])
+                elif u < 0.7:
+                    if has_node(sub, NO_REGEN):
+                        entries.append([addr, "upd", g.constraint(sub_univ, coverage=1.0)])
+                    else:
+                        entries.append([addr, "regen", g.selection(sub_univ)])
+                elif u < 0.8:
+                    entries.append([addr, "empty"])
+                body = body[4]
+            r.shuffle(entries)
+            keep = r.random() < 0.5
+            new_args = cur_args if keep else _perturb(g, prog, atys, cur_args)
+            same = [a == b for a, b in zip(new_args[1:], cur_args[1:])]
+            tags = ["N" if (sm and r.random() < 0.6) else "U" for sm in same]
+            ops.append(["sreq", s, entries, new_args, False, tags])
+            cur_args = new_args
+            if r.random() < opts.get("bwd", 0.5):
+                back = _prev_args(ops)
+                bsame = [a == b for a, b in zip(back[1:], cur_args[1:])]
+                btags = ["N" if (sm and r.random() < 0.6) else "U" for sm in bsame]
+                ops.append(["bwd", r.randint(0, 2**31 - 1), back, False, btags])
+                cur_args = back
+        elif k == "reclose":
+            # edit the trace through a closure with OTHER stored arguments, the call arguments tagged
+            # unchanged: must equal the wrapped function's edit with (new stored ++ call arguments)
+            new_stored = [v + r.choice([-1, 1, 2]) if r.random() < 0.7 else v for v in prog[2]]
+            ops.append(["reclose", ["closure", prog[1], new_stored, prog[3]]])
+            tags = ["N"] * len(atys)
+            u = r.random()
+            if u < 0.4 and not has_node(prog, NO_REGEN):
+                ops.append(["regen", s, g.selection(universe), cur_args, tags])
+            else:
+                ops.append(["upd", s, g.constraint(universe, coverage=r.choice([0.0, 0.0, 0.3])), cur_args, False, tags])
+            ops.append(["assessSelf"])
         elif k == "propose":
             ops.append(["propose", s, cur_args])
         elif k == "subtrace":
@@ -275,6 +331,9 @@ def make_case(g: G, depth, opts):
             cur_args = new_args
         elif k == "regen":
             ops.append(["regen", s, g.selection(universe), cur_args])
+            if r.random() < 0.6 * opts.get("bwd", 0.5):
+                # the backward request of a regenerate restores the old trace (same arguments)
+                ops.append(["bwd", r.randint(0, 2**31 - 1), cur_args, False, ["N"] * len(atys)])
         elif k == "upd":
             keep = r.random() < 0.4
             new_args = cur_args if keep else _perturb(g, prog, atys, cur_args)
@@ -301,6 +360,8 @@ def make_case(g: G, depth, opts):
         case["retag"] = True
     if opts.get("jit") and r.random() < opts["jit"]:
         case["jit"] = True
+    elif opts.get("py") and r.random() < opts["py"]:
+        case["py"] = True         # top-level integer arguments as Python ints / bools, eagerly
     return case
 
 
@@ -358,7 +419,7 @@ def _prev_args(ops):
     for op in ops[:-1]:
         if op[0] in ("sim",):
             args = op[2]
-        elif op[0] in ("gen", "upd"):
+        elif op[0] in ("gen", "upd", "sreq"):
             args = op[3]
         elif op[0] in ("bwd",):
             args = op[2]
@@ -410,6 +471,15 @@ def features(case):
     walk(case["prog"])
     for op in case["ops"]:
         f.add("op:" + op[0])
+    for flag in ("py", "jit", "retag"):
+        if case.get(flag):
+            f.add("case:" + flag)
+    if '"ax1"' in json.dumps(case["prog"]):
+        f.add("vmap:in_axes=1")
+    if case["prog"][0] == "switch":
+        a0 = case["ops"][0][-1][1] if case["ops"][0][0] in ("sim", "gen") else None
+        if isinstance(a0, int) and not 0 <= a0 < len(case["prog"]) - 1:
+            f.add("switch:index-out-of-range")
     return sorted(f)
 
 
